@@ -114,8 +114,19 @@ const miniDateTime = `{
 }`
 const miniDateTimeInput = "id,dt,ep\n1,2021-03-14T03:30:00,0\n2,2020-09-22T12:34:56,1600000000\n3,1969-12-31T23:59:59,-1\n4,2021-11-07T01:30:00,1636263000\n5,bad,12\n6,2024-02-29T00:00:00,x\n"
 
+// a declared element without default: its absence ends the stream with a fatal error (a record can not be skipped here)
+const miniEDIRequired = `{
+ "parser_settings": {"version": "omni.2.1", "file_format_type": "edi"},
+ "file_declaration": {"segment_delimiter": "~", "element_delimiter": "*",
+   "segment_declarations": [{"name": "HDR", "min": 0, "max": -1, "is_target": true,
+     "elements": [{"name": "id", "index": 1}, {"name": "qty", "index": 2}]}]},
+ "transform_declarations": {"FINAL_OUTPUT": {"object": {"id": {"xpath": "id"}, "qty": {"xpath": "qty", "type": "int"}}}}
+}`
+const miniEDIRequiredInput = "HDR*a*1~HDR*b*x~HDR*c~HDR*d*4~"
+
 func miniSamples() []Sample {
 	return []Sample{
+		{"mini/edi-required-element", "edi", []byte(miniEDIRequired), []byte(miniEDIRequiredInput)},
 		{"mini/datetime", "csv", []byte(miniDateTime), []byte(miniDateTimeInput)},
 		{"mini/failkinds", "csv", []byte(miniFailKinds), []byte(miniFailKindsInput)},
 		{"mini/csv", "csv", []byte(miniCSV), []byte(miniCSVInput)},
